@@ -1,4 +1,5 @@
 import FtdcVerif.Lemmas.Collector
+import FtdcVerif.Lemmas.ChopE2E
 /-!
 # C08 — schema changes split chunks exactly and never corrupt, reject or drop samples
 
@@ -514,6 +515,42 @@ theorem dynamic_batches_have_one_schema (n : Nat) (hn : 1 ≤ n) (ds : List BDoc
      by intro h hh; simp [Dynamic.new] at hh, fun _ => ⟨rfl, rfl⟩, by simp [Dynamic.new]⟩
   obtain ⟨groups, g, hf⟩ := this ds _ [] [[]] g0 (by simp)
   exact ⟨groups, g.rows, g.one, hf⟩
+
+/-! ### exact chunk boundaries over any sequence of schemas
+
+The input is any list of runs `(head, tail)`; inside a run every document has the head's schema,
+consecutive runs have different schema keys (`AdjDiff`).  `Chop n s g` says the chunks `g` are the
+run `s` cut at capacity: they concatenate to the run, none holds more than `n` documents, only the
+last may hold fewer.  So a new chunk begins at each change point and otherwise only at capacity. -/
+
+/-- **the schema-aware streaming collector**: what reached the writer (`chs`) followed by the pending
+chunk (`p`) is, run by run, each run cut at capacity -/
+theorem streaming_dynamic_chunk_boundaries (n : Nat) (hn : 1 ≤ n) (s0 : BDoc × List BDoc)
+    (segs : List (BDoc × List BDoc)) (hsim : ∀ s ∈ s0 :: segs, ∀ d ∈ s.2, SimDoc s.1 d) (hadj : AdjDiff (s0 :: segs)) :
+    ∃ (chs : List (BDoc × List BDoc)) (p : BDoc × List BDoc) (groups : List (List (BDoc × List BDoc))),
+      let c := (((s0 :: segs).flatMap chunkDocs).foldl (fun (c : StreamingDynamic) d => (c.add d).1)
+        (StreamingDynamic.new n)).s
+      logDocs c.out = chs.map mkChunk ∧ c.inner.resolve = some [mkChunk p] ∧
+      chs ++ [p] = groups.flatten ∧ Chops n (s0 :: segs) groups := by
+  obtain ⟨chs, p, groups, g, hfl, hch⟩ := sd_chops n hn s0 segs hsim hadj
+  refine ⟨chs, p, groups, g.sg.logged, ?_, hfl, hch⟩
+  obtain ⟨⟨a1, a2, a3, a4, _, a6, _⟩, _, _⟩ := g.sg.pend
+  simp only [Better.resolve, a1, a4, mkChunk, a6, a2, a3]
+
+/-- **the dynamic collector**: one batch collector per run, and each of them resolves to its run cut at
+capacity -/
+theorem dynamic_chunk_boundaries (n : Nat) (hn : 1 ≤ n) (s0 : BDoc × List BDoc)
+    (segs : List (BDoc × List BDoc)) (hsim : ∀ s ∈ s0 :: segs, ∀ d ∈ s.2, SimDoc s.1 d) (hadj : AdjDiff (s0 :: segs)) :
+    (((s0 :: segs).flatMap chunkDocs).foldl (fun (c : Dynamic) d => (c.add d).1) (Dynamic.new n)).chunks =
+      (s0 :: segs).map (batchOf n) ∧
+    ∀ s ∈ s0 :: segs, ∃ g, Chop n s g ∧ (batchOf n s).resolve = some (g.map mkChunk) :=
+  ⟨dynamic_runs n s0 segs hsim hadj, fun s hs => batch_chop n hn s (hsim s hs)⟩
+
+/-! non-vacuity: three runs `{a}×2, {b}, {a}` satisfy the hypotheses -/
+example : AdjDiff [(.cons [97] (.int64 5#64) .nil, [.cons [97] (.int64 6#64) .nil]),
+                   (.cons [98] (.int64 5#64) .nil, []),
+                   (.cons [97] (.int64 7#64) .nil, [])] := by
+  simp [AdjDiff, HeadDiff, schemaKey, hashElems, hashVal]
 
 /-! non-vacuity -/
 example : NulFree (.cons [97] (.doc (.cons [98] (.int64 1#64) .nil)) (.cons [99] (.int64 2#64) .nil)) := by
